@@ -99,3 +99,7 @@ impl KeySet {
         self.epoch_key.reference()
     }
 }
+
+#[cfg(any(kani, verif_replay))]
+#[path = "/verif/kani/group_keys.rs"]
+pub(crate) mod verif_kani_group_keys;
